@@ -146,6 +146,12 @@ class Conventions(object):
         return CONVENTIONS.get(name)
 
 
+# read wrappers whose "short count only at end of file" contract is decided exactly by R1.short-is-eof
+# (rules/shorteof.py, linear values + Fourier-Motzkin): the class-based short-exit test below cannot see that a loop
+# has accumulated the full count
+SHORT_EOF_WRAPPERS = ('read_data',)
+
+
 class SiteRule(Rule):
     """Tracks the outcome of one call site through its caller."""
     name = 'R1.errdisc'
@@ -329,7 +335,7 @@ class SiteRule(Rule):
         return ts
 
     def on_return(self, ctx, node, mask, ts):
-        if ts == 'short' and self.raw_read and self.caller_conv != 'void':
+        if ts == 'short' and self.raw_read and self.caller_conv != 'void' and self.caller.name not in SHORT_EOF_WRAPPERS:
             # read(): a positive count smaller than requested is not end of file; leaving to a success exit
             # while the result may still be positive means the rest of the stream is silently dropped
             if not (node.e is not None and self.is_result(ctx.origins(node.e))) and mask & self.caller_succ:
